@@ -387,7 +387,7 @@ def adjudicate(events, chunk=None, parallel=8):
     Chunks are independent traces; they are validated by several TLC processes at once."""
     from concurrent.futures import ThreadPoolExecutor
     if chunk is None:
-        chunk = max(50, min(1500, (len(events) + parallel - 1) // parallel))
+        chunk = max(50, min(800, (len(events) + parallel - 1) // parallel))
     rejected = {}
     total_states = 0
     t0 = time.time()
